@@ -37,6 +37,7 @@ const char *__asan_get_report_description(void);
 namespace seqx {
 
 inline uint64_t g_news, g_deletes;
+inline bool g_fail_next_new;  // fault injection: the next operator new throws std::bad_alloc (a harness sets it around one call)
 inline uint64_t g_news_512;  // allocations of exactly 512 bytes (std::deque nodes of the thread-local ready queue)
 inline uint64_t news() { return g_news; }
 inline uint64_t deletes() { return g_deletes; }
@@ -238,6 +239,10 @@ extern "C" const char *__ubsan_default_options() { return "print_stacktrace=1"; 
 
 // counting replacements of the global allocation functions
 inline void *seqx_alloc(size_t n, size_t al) {
+    if (seqx::g_fail_next_new) {
+        seqx::g_fail_next_new = false;
+        throw std::bad_alloc();
+    }
     seqx::g_news++;
     if (n == 512) seqx::g_news_512++;
     void *p = al > 16 ? aligned_alloc(al, (n + al - 1) / al * al) : malloc(n ? n : 1);
